@@ -118,6 +118,16 @@ type ackRec struct {
 	Img  int     `json:"img"`
 }
 
+// removalRec: the write ahead log garbage collect task (writeAheadLog.destroy) removed the directory of a partition.
+type removalRec struct {
+	Part partKey `json:"part"`
+	Tick int64   `json:"tick"`
+	Img  int     `json:"img"` // number of images when the removal was noticed
+	// Appended / Stored: appended sequence of the log and sequence stored with the family's flushed data at that time
+	Appended int64 `json:"appended"`
+	Stored   int64 `json:"stored"`
+}
+
 type imageRec struct {
 	Index int    `json:"index"`
 	Label string `json:"label"`
@@ -126,19 +136,21 @@ type imageRec struct {
 }
 
 type ledger struct {
-	Hist     int        `json:"hist"`
-	Seed     int64      `json:"seed"`
-	Tier     string     `json:"tier"`
-	Mode     string     `json:"mode"` // step | free
-	T0       int64      `json:"t0"`
-	Shards   int        `json:"shards"`
-	Families []int64    `json:"families"`
-	Parts    []partKey  `json:"parts"`
-	Entries  []entryRec `json:"entries"`
-	Flushes  []flushRec `json:"flushes"`
-	Acks     []ackRec   `json:"acks"`
-	Images   []imageRec `json:"images"`
-	Config   string     `json:"config"`
+	Hist     int          `json:"hist"`
+	Seed     int64        `json:"seed"`
+	Tier     string       `json:"tier"`
+	Mode     string       `json:"mode"` // step | free
+	T0       int64        `json:"t0"`
+	Shards   int          `json:"shards"`
+	Families []int64      `json:"families"`
+	Old      int64        `json:"old"` // family (3 days old) whose log partitions the WAL garbage collector may remove; 0 = none
+	Parts    []partKey    `json:"parts"`
+	Removals []removalRec `json:"removals"`
+	Entries  []entryRec   `json:"entries"`
+	Flushes  []flushRec   `json:"flushes"`
+	Acks     []ackRec     `json:"acks"`
+	Images   []imageRec   `json:"images"`
+	Config   string       `json:"config"`
 	// counters observed while driving
 	Counters map[string]int `json:"counters"`
 	Problems []string       `json:"problems"` // driver level failures (lindb call returned an error, ...)
